@@ -78,7 +78,11 @@ Fixpoint add_hist (L : lang) (h : list (name * item_kind)) : list nat * lang :=
       | None => let (bs, Lf) := add_hist L r in (0 :: bs, Lf)
       end
   end.
-Definition obs_hist h := let (bs, Lf) := add_hist empty_lang h in (nn bs, map nn (all_names Lf)).
+(* lang.py:186  name = item.name = name.rstrip("_")  (a scope key such as `min_` names the symbol `min`) *)
+Definition rstrip_us (n : list nat) : list nat :=
+  rev ((fix go (l : list nat) := match l with 95 :: r => go r | _ => l end) (rev n)).
+Definition obs_hist (h : list (list nat * item_kind)) :=
+  let (bs, Lf) := add_hist empty_lang (map (fun p => (rstrip_us (fst p), snd p)) h) in (nn bs, map nn (all_names Lf)).
 Definition obs_lang L ns (xs : list opref) :=
   (nn [b2n (lang_text_okb L); b2n (lang_uri_okb L); b2n (wf_nsb ns)], map nn (map (uri_op L ns) xs)).
 """
@@ -579,6 +583,13 @@ def gen_history(rng, spec: Spec):
     for n, k in items:
         if seen and rng.random() < 0.4:
             hist.append((rng.choice(seen), rng.choice(kinds), False))
+        if seen and rng.random() < 0.15:
+            # the same symbol under a scope key with trailing underscores (stripped by add)
+            hist.append((rng.choice(seen) + "_" * rng.randint(1, 2), rng.choice(kinds), False))
+        if rng.random() < 0.08:
+            hist.append((rng.choice(RESERVED) + "_", rng.choice(kinds), False))
+        if rng.random() < 0.12:
+            n = n + "_" * rng.randint(1, 2)
         if rng.random() < 0.25:
             hist.append((rng.choice(RESERVED), rng.choice(kinds), False))
         if rng.random() < 0.1:
@@ -590,10 +601,11 @@ def gen_history(rng, spec: Spec):
     out = []
     acc = set()
     for n, k, _ in hist:
-        ok = n not in acc and n not in RESERVED
+        st = n.rstrip("_")
+        ok = st not in acc and st not in RESERVED
         out.append((n, k, ok))
         if ok:
-            acc.add(n)
+            acc.add(st)
     return out
 
 
